@@ -38,30 +38,34 @@ Proof.
   - destruct (g x); auto. rewrite (IH f Hin Hn). reflexivity.
 Qed.
 
-(* reading an attribute whose depth is d needs d+1 units of fuel, and yields the value of the derivation
-   tree stored in the table *)
-Lemma eval_correct : forall own links env t, Inv own links t ->
+(* reading an attribute whose depth is d needs d+1 units of fuel, and yields the value of the derivation tree stored
+   in the table.  own' may be larger than the own set the table was computed for (a dataset reads its derived
+   components as components): those attributes are then leaves of the tree, with the value env' gives them *)
+Lemma eval_correct_sup : forall own links t own' env', Inv own links t -> incl own own' ->
   forall d c, depth_of own t c = Some d ->
-  exists v, (forall k, eval (S d + k) own env t c = Some v) /\ DerivVal own links env c d v.
+  exists v, (forall k, eval (S d + k) own' env' t c = Some v) /\ DerivVal own' links env' c d v.
 Proof.
-  intros own links env t HI d. induction d as [d IH] using lt_wf_ind. intros c Hd.
-  unfold depth_of in Hd. destruct (mem c own) eqn:Ec.
-  - exists (env c). split.
-    + intros k. simpl. rewrite Ec. reflexivity.
-    + apply DV_own. apply mem_In. exact Ec.
-  - destruct (lookup c t) as [[d0 l0]|] eqn:El; try discriminate. inversion Hd; subst d0.
+  intros own links t own' env' HI Hinc d. induction d as [d IH] using lt_wf_ind. intros c Hd.
+  destruct (mem c own') eqn:Ec'.
+  - exists (env' c). split.
+    + intros k. simpl. rewrite Ec'. reflexivity.
+    + apply DV_own. apply mem_In. exact Ec'.
+  - assert (Ec : mem c own = false).
+    { apply mem_false. intros Hc. apply Hinc in Hc. apply mem_In in Hc. congruence. }
+    unfold depth_of in Hd. rewrite Ec in Hd.
+    destruct (lookup c t) as [[d0 l0]|] eqn:El; try discriminate. inversion Hd; subst d0.
     destruct (inv_entry _ _ _ HI _ _ _ El) as (_ & Hin & Hto & _ & [m [Hm Hs]]).
     destruct d as [|d]; [lia|].
     assert (Hfs : forall f, In f (l_from l0) -> exists v,
-               (forall k, eval (S d + k) own env t f = Some v) /\ DerivVal own links env f d v).
+               (forall k, eval (S d + k) own' env' t f = Some v) /\ DerivVal own' links env' f d v).
     { intros f Hf. destruct (max_depth_In _ _ _ _ _ Hm Hf) as [df [Hdf Hle]].
       destruct (IH df ltac:(lia) f Hdf) as [v [Hev Hdv]]. exists v. split.
       - intros k. replace (S d + k) with (S df + (d - df + k)) by lia. apply Hev.
       - apply DerivVal_mono with (n := df); auto. lia. }
-    set (vf := fun f => match eval (S d) own env t f with Some v => v | None => 0%Z end).
+    set (vf := fun f => match eval (S d) own' env' t f with Some v => v | None => 0%Z end).
     exists (apply_fn (l_fn l0) (map vf (l_from l0))). split.
-    + intros k. simpl. rewrite Ec, El.
-      rewrite (all_some_map _ _ (eval (S (d + k)) own env t) 0%Z).
+    + intros k. simpl. rewrite Ec', El.
+      rewrite (all_some_map _ _ (eval (S (d + k)) own' env' t) 0%Z).
       * f_equal. f_equal. apply map_ext_in. intros f Hf. unfold vf.
         destruct (Hfs f Hf) as [v [Hev _]].
         pose proof (Hev k) as H1. pose proof (Hev 0) as H0.
@@ -72,6 +76,30 @@ Proof.
     + subst c. apply DV_link; auto. intros f Hf. unfold vf.
       destruct (Hfs f Hf) as [v [Hev Hdv]]. pose proof (Hev 0) as H0.
       replace (S d + 0) with (S d) in H0 by lia. rewrite H0. exact Hdv.
+Qed.
+
+Lemma eval_correct : forall own links env t, Inv own links t ->
+  forall d c, depth_of own t c = Some d ->
+  exists v, (forall k, eval (S d + k) own env t c = Some v) /\ DerivVal own links env c d v.
+Proof. intros own links env t HI. apply eval_correct_sup; auto. apply incl_refl. Qed.
+
+Lemma read_correct_sup : forall own links t own' env', Inv own links t -> incl own own' ->
+  forall c d, depth_of own t c = Some d ->
+  exists v, read own' env' t c = Some v /\ DerivVal own' links env' c d v.
+Proof.
+  intros own links t own' env' HI Hinc c d Hd.
+  destruct (eval_correct_sup _ _ _ own' env' HI Hinc _ _ Hd) as [v [Hev Hdv]].
+  exists v. split; auto. unfold read.
+  pose proof (Inv_depth_bound _ _ _ _ _ HI Hd) as Hb.
+  replace (S (length t)) with (S d + (length t - d)) by lia. apply Hev.
+Qed.
+
+Lemma read_none_sup : forall own t own' env' c,
+  depth_of own t c = None -> ~ In c own' -> read own' env' t c = None.
+Proof.
+  intros own t own' env' c H Hn. unfold read. simpl. apply mem_false in Hn. rewrite Hn.
+  unfold depth_of in H. destruct (mem c own); try discriminate.
+  destruct (lookup c t) as [[d l]|]; try discriminate. reflexivity.
 Qed.
 
 Lemma eval_none : forall own env t c, depth_of own t c = None -> forall fuel, eval fuel own env t c = None.
